@@ -359,7 +359,16 @@ def oracle_matrix(case, rec):
         if nt:
             rec.nontrivial(True)
         mats = {}
-        for sym in SYM_ES:
+        # the six symmetrisations are requested on ONE object in an order
+        # that is a pure function of the case (all 720 orders occur): a
+        # request must not disturb the ones that follow it
+        import itertools
+        from vp.pbt import case_hash
+        k = int(case_hash(case)[:6], 16) % 720
+        sym_order = list(next(itertools.islice(
+            itertools.permutations(SYM_ES), k, None)))
+        rec.label("first_sym=" + sym_order[0])
+        for sym in sym_order:
             ok, M = rec.call("event_series_analysis_ES_%s_raises" % sym,
                              _quiet, es.event_series_analysis, method="ES",
                              symmetrization=sym)
